@@ -17,6 +17,7 @@ object the trust check returned and nothing else.
 -/
 import Nebula.Lemmas.HsManagerStep
 import Nebula.Lemmas.MachineTrace
+import Nebula.Props.C05
 
 namespace Nebula.HsCompose
 open Nebula.HsManager Nebula.Lemmas.HsManager
@@ -119,28 +120,128 @@ theorem glue_verified (info : Machine.CertId → CertInfo) (mc : Machine.Cfg) (v
     (call : Machine.Ev) (s' : Machine.St) (sent : Option Machine.Sent) (r : Machine.Result) (c : Completed)
     (h : Machine.stepEv mc (Machine.runState mc { myVersion := v } hist) call = (s', .ok sent (some r)))
     (hg : glue info r = some c) : Verified info (hist ++ [call]) c := by
-  -- complete_implies_verified_partial of Props/C05, re-derived from the same lemmas (Props files are not imported)
-  have hinv := Machine.certInv_run mc hist { myVersion := v } [] (by intro h0; simp at h0)
-  have hstep := Machine.certInv_step mc _ ([] ++ hist) call hinv
-  rw [h] at hstep
-  have hres : s'.remoteCertSet = true ∧ r.remoteCert = s'.remoteCert ∧ r.remoteKey = s'.remoteKey := by
-    cases call with
-    | init now wr =>
-      simp only [Machine.stepEv, Machine.initiate] at h
-      split at h; · simp at h
-      split at h; · simp at h
-      split at h; · simp at h
-      split at h <;> simp at h
-    | pkt len st rd co now wr =>
-      simp only [Machine.stepEv, Machine.processPacket] at h
-      obtain ⟨hc, _, _, hr, _⟩ := Machine.pp_result true mc _ s' len st rd co now wr sent r h
-      exact ⟨hc, by rw [hr]; rfl, by rw [hr]; rfl⟩
-  obtain ⟨cert, h1, e', h2, h3, h4⟩ := hstep hres.1
+  -- C05: complete_implies_verified_partial
+  obtain ⟨cert, h1, e', h2, h3, h4⟩ :=
+    Nebula.Props.C05.complete_implies_verified_partial mc { myVersion := v } rfl hist call s' sent r h
   unfold glue at hg
   split at hg; · simp at hg
-  rw [hres.2.1, h1] at hg
+  rw [h1] at hg
   simp only [Option.some.injEq] at hg
   subst hg
-  exact ⟨cert, rfl, rfl, e', by simpa using h2, h3, s'.remoteKey, h4⟩
+  exact ⟨cert, rfl, rfl, e', h2, h3, r.remoteKey, h4⟩
+
+/-! ### the invariant of composed histories -/
+
+structure CInv (cfg : Cfg) (info : Machine.CertId → CertInfo) (s : Sys) : Prop where
+  node : s.node = (Node.init cfg).run s.fed
+  hist : ∀ id m, alookup id s.insts = some m → ∀ e ∈ m.hist, e ∈ s.mlog
+  ver : ∀ c ∈ comps s.fed, Verified info s.mlog c
+
+theorem run_snoc (n : Node) (evs : List Ev) (e : Ev) : n.run (evs ++ [e]) = ((n.run evs).step e).1 := by
+  simp [Node.run, List.foldl_append]
+
+theorem comps_snoc (evs : List Ev) (e : Ev) : comps (evs ++ [e]) = comps evs ++ (completionOf e).toList := by
+  simp only [comps, List.filterMap_append, List.filterMap_cons, List.filterMap_nil]
+  cases completionOf e <;> simp
+
+theorem CInv.init (cfg : Cfg) (info : Machine.CertId → CertInfo) : CInv cfg info (Sys.init cfg) :=
+  ⟨rfl, fun id m h => by simp [Sys.init, alookup] at h, fun c h => by simp [Sys.init, comps] at h⟩
+
+/-- feeding a manager step whose completed result (if any) is verified against the (possibly grown) log -/
+theorem CInv.feed {cfg : Cfg} {info : Machine.CertId → CertInfo} {s : Sys} (h : CInv cfg info s) (e : Ev)
+    (insts' : List (Nat × Inst)) (mlog' : List Machine.Ev) (hl : ∀ x ∈ s.mlog, x ∈ mlog')
+    (hi : ∀ id m, alookup id insts' = some m → ∀ x ∈ m.hist, x ∈ mlog')
+    (hv : ∀ c, completionOf e = some c → Verified info mlog' c) :
+    CInv cfg info { (s.feed e) with insts := insts', mlog := mlog' } := by
+  refine ⟨?_, hi, ?_⟩
+  · show (s.node.step e).1 = (Node.init cfg).run (s.fed ++ [e])
+    rw [run_snoc, ← h.node]
+  · intro c hc
+    have hc' : c ∈ comps (s.fed ++ [e]) := hc
+    rw [comps_snoc] at hc'
+    rcases List.mem_append.mp hc' with h1 | h1
+    · exact (h.ver c h1).mono hl
+    · cases he : completionOf e with
+      | none => simp [he] at h1
+      | some c' => simp [he] at h1; rw [h1]; exact hv c' he
+
+theorem step_cinv (cfg : Cfg) (info : Machine.CertId → CertInfo) (s : Sys) (ce : CEv) (h : CInv cfg info s) :
+    CInv cfg info (s.step info ce) := by
+  cases ce with
+  | mgr e =>
+    simp only [Sys.step]
+    split
+    · exact h
+    · rename_i hst
+      have hn : completionOf e = none := by
+        cases e <;> first | rfl | (simp [isStage] at hst)
+      have := h.feed e s.insts s.mlog (fun _ hx => hx) h.hist (fun c hc => by rw [hn] at hc; simp at hc)
+      exact this
+  | recv1 via pkt respVer now mc v call =>
+    simp only [Sys.step]
+    apply h.feed _ s.insts (s.mlog ++ [call]) (fun x hx => List.mem_append_left _ hx)
+      (fun id m hm x hx => List.mem_append_left _ (h.hist id m hm x hx))
+    intro c hc
+    -- the completed result fed to the manager comes from the fresh Machine's call
+    generalize hout : Machine.stepEv mc { myVersion := v } call = out at hc
+    obtain ⟨s', o⟩ := out
+    cases o with
+    | err e => simp [completionOf] at hc
+    | ok sent res =>
+      cases res with
+      | none => simp [completionOf] at hc
+      | some r =>
+        simp only [completionOf] at hc
+        have hg : glue info r = some c := by
+          cases hgl : glue info r with
+          | none => simp [hgl] at hc
+          | some c' => simp [hgl] at hc; rw [hc]
+        have := glue_verified info mc v [] call s' sent r c (by simpa [Machine.runState] using hout) hg
+        exact this.mono (fun x hx => by simp at hx; simp [hx])
+  | recv2 via idx mc v call =>
+    simp only [Sys.step]
+    split
+    · exact h
+    · rename_i hh hl
+      generalize hm : (alookup hh.id s.insts).getD { cfg := mc, ver := v, hist := [] } = m
+      have hsub : ∀ x ∈ m.hist, x ∈ s.mlog := by
+        cases hl2 : alookup hh.id s.insts with
+        | none => rw [hl2] at hm; simp at hm; subst hm; intro x hx; simp at hx
+        | some m0 => rw [hl2] at hm; simp at hm; subst hm; exact h.hist hh.id m0 hl2
+      apply h.feed _ _ (s.mlog ++ [call]) (fun x hx => List.mem_append_left _ hx)
+      · intro id m1 hm1 x hx
+        rw [alookup_ainsert] at hm1
+        split at hm1
+        · simp only [Option.some.injEq] at hm1
+          subst hm1
+          rcases List.mem_append.mp hx with h1 | h1
+          · exact List.mem_append_left _ (hsub x h1)
+          · exact List.mem_append_right _ h1
+        · exact List.mem_append_left _ (h.hist id m1 hm1 x hx)
+      · intro c hc
+        generalize hout : Machine.stepEv m.cfg m.state call = out at hc
+        obtain ⟨s', o⟩ := out
+        cases o with
+        | err e => simp [completionOf, stage2Res] at hc
+        | ok sent res =>
+          cases res with
+          | none => simp [completionOf, stage2Res] at hc
+          | some r =>
+            cases hgl : glue info r with
+            | none => simp [completionOf, stage2Res, hgl] at hc
+            | some c' =>
+              simp [completionOf, stage2Res, hgl] at hc
+              subst hc
+              have := glue_verified info m.cfg m.ver m.hist call s' sent r c' (by simpa [Inst.state] using hout) hgl
+              exact this.mono (fun x hx => by
+                rcases List.mem_append.mp hx with h1 | h1
+                · exact List.mem_append_left _ (hsub x h1)
+                · exact List.mem_append_right _ h1)
+
+theorem run_cinv (cfg : Cfg) (info : Machine.CertId → CertInfo) (evs : List CEv) (s : Sys) (h : CInv cfg info s) :
+    CInv cfg info (s.run info evs) := by
+  induction evs generalizing s with
+  | nil => exact h
+  | cons e es ih => exact ih _ (step_cinv cfg info s e h)
 
 end Nebula.HsCompose
